@@ -1,0 +1,20 @@
+//go:build verif
+
+// Contracts for the gossip layer, checked by /verif/govc (C05: panic freedom of the validator
+// closures that every incoming message passes through). Comments only.
+package p2p
+
+//@ func UnmarshalPubsubMessage
+//@   requires msg != nil
+//@   ensures ret2 == nil ==> ret0 != nil
+//@
+//@ // the per-topic validator installed by addValidatorImpl (captures topic, handleError, valFunc, messProto)
+//@ func (*P2PMessaging).addValidatorImpl$2
+//@   requires message != nil && valFunc != nil && handleError != nil
+//@   opt frame = off
+//@
+//@ // reject-dominates combination of all validators of a topic (captures r and topic)
+//@ func (*ValidatorRegistry).GetCombinedValidator$1
+//@   requires message != nil && r != nil && (forall t Str, i :: has(deref(r), t) && 0 <= i && i < len(deref(r)[t]) ==> deref(r)[t][i] != nil)
+//@   ensures ret0 == 0 || ret0 == 1 || ret0 == 2
+//@   opt frame = off
